@@ -18,7 +18,7 @@ CHECKS = {
                  "that fail although every call succeeds on a fresh handler are reported as history-dependent. TransposeMC model-checks the "
                  "implementation-shaped Transpose.tla (numpy strided views: _extract_from_source, Alltoall, _rearrange_from_buffer even/uneven "
                  "paths, local path, redirects with buffer parity) as a refinement of LayoutAbs on its own box (DestCorrect, SourceIntact, no "
-                 "view out of bounds or shape mismatch). The boxes include process grids of every length the constructor accepts and over-decomposed grids (more processes than points, idle data ranks included); layout sets that are not connected are offered to the constructor and must be refused on every rank. What every rank hands to Alltoall in the first hop is compared with the Pack of Transpose.tla (wire-level binding, reported as drift).",
+                 "view out of bounds or shape mismatch). The boxes include process grids of every length the constructor accepts and over-decomposed grids (more processes than points, idle data ranks included); layout sets that are not connected are offered to the constructor and must be refused on every rank. What every rank hands to Alltoall in the first hop is compared with the Pack of Transpose.tla (wire-level binding, reported as drift). One handler also moves payloads of changing type (float, complex, integer) in one history; deterministic chain-of-five and ring-of-six layout sets give routes of four steps.",
          "note": _TB},
  "C03": {"level": "model_checking", "design_ref": "DESIGN.md section 8, C03",
          "technique": "TLA+ spec (Layouts/LayoutAbs + SwapperBoxMC candidate groupings checked by TLC); accepted groupings are driven through random transpose histories on the real LayoutSwapper and every call is trace-validated (C03Trace)",
@@ -31,7 +31,7 @@ CHECKS = {
                  "cover every block of the destination partition, the source is intact when a buffer is given, and the swapper's public "
                  "current-manager properties describe the destination layout. SwapperMC model-checks the implementation-shaped Swapper.tla "
                  "(scatter = local slice, gather = Allgather of padded blocks + per-rank unpack with the sender's own block shape, local "
-                 "move only when shared communicators distribute the same dimension) as a refinement of LayoutAbs.",
+                 "move only when shared communicators distribute the same dimension) as a refinement of LayoutAbs. Histories include fan-out moves (a source that a buffered transpose left intact is moved again, elsewhere) and the four-group configuration of the repository's own swapper test.",
          "note": _TB},
  "C04": {"level": "model_checking", "design_ref": "DESIGN.md section 8, C04",
          "technique": "TLA+ spec GridBuffers (three rotating buffers + reference single-array model) model-checked exhaustively with TLC; all operation paths up to a bound are generated by TLC and executed on real Grids; recorded histories are stepped through the spec's actions by trace validation (C04Trace) with every invariant evaluated at every step",
@@ -42,7 +42,7 @@ CHECKS = {
                  "(1,1),(2,1),(1,2),(1,3),(2,2),(3,2), LayoutHandler and LayoutSwapper managers, float and complex). C04Trace steps each "
                  "recorded event through the matching GridBuffers action and requires: getAllData() decodes to the Block of the reference "
                  "array's current version and layout, currentLayout agrees, written versions are fresh, calls the reference model cannot "
-                 "take are refused and change nothing, well-formed calls are accepted. GridBuffersApa.tla (typed copy of the actions) carries an inductive invariant implying the five invariants; Apalache discharges Init => IndInv and IndInv /\\ Next => IndInv' at every run (unbounded in versions and history length). Configurations include over-decomposed grids.",
+                 "take are refused and change nothing, well-formed calls are accepted. GridBuffersApa.tla (typed copy of the actions) carries an inductive invariant implying the five invariants; Apalache discharges Init => IndInv and IndInv /\\ Next => IndInv' at every run (unbounded in versions and history length). Configurations include over-decomposed grids. Configurations include the driver's potential grid with extents that do not divide (destination block larger than source block after a two-step change) and three-step routes on a swapper with two 2-D groups.",
          "note": _TB},
  "C06": {"level": "model_checking", "design_ref": "DESIGN.md section 8, C06",
          "technique": "TLA+ specs Collectives (per-rank programs, every interleaving of Arrive/Return incl. early return) and Routes (route search with the set-iteration choice nondeterministic) model-checked with TLC on programs recorded from the real code under different interpreter hash seeds",
@@ -65,7 +65,7 @@ CHECKS = {
                  "(maxima to 3000, sizes to 10^6) and grid-level calls follow. C20Trace judges each call by the property only: product = "
                  "size, both factors within their maxima, an error exactly when no divisor pair fits, every process owns a point of every "
                  "distributed dimension of the three standard layouts, and those layouts are actually built, connected and transposed on "
-                 "the simulated ranks. Equality with the exact-arithmetic transcription's own choice is drift only (the code compares float ratios).",
+                 "the simulated ranks. Equality with the exact-arithmetic transcription's own choice is drift only (the code compares float ratios). The entry point that takes grid sizes is judged on every size vector of a small box (extents of 1 included) for 1-12 processes (`gridcall` events).",
          "note": _TB},
  "C17": {"level": "model_checking", "design_ref": "DESIGN.md section 8, C17",
          "technique": "TLA+ spec Reductions (integer-scaled serial quadrature of the global field, volume factor, slice min/max, slot rule) evaluated by TLC in trace validation (C17Trace) of results recorded from the real diagnostic classes on simulated MPI ranks",
@@ -76,7 +76,7 @@ CHECKS = {
                  "the minimum/maximum of the global field on the requested slice, and the slot k mod saveStep, and requires equality with: "
                  "the sum over processes (one replica set for replicated layouts) in every layout, reduce()'s results on rank 0, the values "
                  "received at the drawing rank (also with a plot-only rank owning an empty block), and the column of `diagnostics` that "
-                 "changed, for integer- and float-typed times.",
+                 "changed, for integer- and float-typed times. reduce() twice without a collect in between reports the same quantities; the printed diagnostics line equals the reduced quantities.",
          "note": _TB + " dq = dz = 1 and at most 6 theta points (the classes assert dq*ntheta - 2pi < 1e-7, an upper bound only)."},
  "C18": {"level": "model_checking", "design_ref": "DESIGN.md section 8, C18",
          "technique": "TLA+ spec Restart (driver bookkeeping as state transformer) model-checked with TLC over every split of K steps into runs and every save interval; real checkpoint round trips, hand-made checkpoint directories, constants permutations and sequences of real fullSimulation.main() runs are trace-validated (C18Trace) against Restart and the Block oracle",
@@ -119,7 +119,7 @@ CHECKS = {
                  "table is replayed: Spline1D.eval (scalar/array), eval_vector, the nu_/cu_ kernels, BSplines[i], Spline2D.eval (scalar, grid) "
                  "and eval_vector, value and first derivatives, for all unit and seeded integer coefficient vectors, at every breakpoint, both "
                  "end points, points one ulp inside, quarter points and seeded points, under affine maps of the breakpoints, against the exact "
-                 "polynomial values; fast path vs general path as functions; periodic ends (values; slopes for degree >= 2).",
+                 "polynomial values; fast path vs general path as functions; periodic ends (values; slopes for degree >= 2). Argument forms: output array = input array (in place), stale output arrays, the 2-D point-wise kernels called directly on mixed degrees; arrays returned earlier must stay intact through later evaluations of the same spline and the coefficients through any evaluation.",
          "note": _TB + " Float results are compared with the exact rational values by the harness (TLC has no floating point) under a bound scaled by the computed condition number of the collocation matrix; mutations of interest move results by 1e-3 or more."},
  "C08": {"level": "model_checking", "design_ref": "DESIGN.md section 8, C08",
          "technique": "TLA+ BSplines tables (TLC-derived exact basis polynomials) used as oracle: interpolants returned by the real SplineInterpolator1D/2D are evaluated exactly through the tables and must take their data / reproduce monomials",
@@ -127,7 +127,7 @@ CHECKS = {
                  "and badly scaled (power-of-two) data, complex data on clamped spaces and monomials up to the degree. The returned coefficients "
                  "are turned into an exact piecewise polynomial by the TLC table and must take the data at the code's own interpolation points, "
                  "reproduce the generating coefficients, equal x^k everywhere on clamped spaces, and keep wrapped periodic coefficients "
-                 "consistent; 2-D tensor interpolation for all four boundary combinations.",
+                 "consistent; 2-D tensor interpolation for all four boundary combinations. The caller's own contiguous array is handed over and must be unchanged; the interpolant is read through every evaluation form (point, array, given array, in place, an earlier result after a later evaluation, 2-D eval_vector); 2-D data scaled by 2^-30 / 2^-45 must give exactly the scaled interpolant; pairs of directions with equal sizes and different breakpoints are drawn explicitly.",
          "note": _TB + " Float results are compared with the exact rational values by the harness (TLC has no floating point) under a bound scaled by the computed condition number of the collocation matrix; mutations of interest move results by 1e-3 or more."},
  "C09": {"level": "model_checking", "design_ref": "DESIGN.md section 8, C09",
          "technique": "TLA+ BSplines tables incl. exact basis integrals (Poly antiderivatives, IntegralsSumToLength checked by TLC); quadrature weights of the real code must satisfy the exact linear identity q^T C = integrals for every space of the box",
@@ -135,7 +135,7 @@ CHECKS = {
                  "breakpoints, two affine maps) the weights returned by get_quadrature_coefficients() must satisfy sum_i q_i N_j(x_i) = "
                  "integral of N_j for every (wrapped) basis function at the code's own interpolation points, sum to the domain length, be "
                  "equal on uniform periodic spaces, integrate the interpolant of random data exactly, and BSplines.integrals must equal the "
-                 "exact integrals (periodic spaces: per periodic function).",
+                 "exact integrals (periodic spaces: per periodic function). The equal-weights clause is judged on every uniform periodic space (only the library's 15-decimal rounding of the points on a 2^-30 domain is excused); the weights are applied to the array the caller holds after interpolating it.",
          "note": _TB + " Float results are compared with the exact rational values by the harness (TLC has no floating point) under a bound scaled by the computed condition number of the collocation matrix; mutations of interest move results by 1e-3 or more."},
  "C16": {"level": "model_checking", "design_ref": "DESIGN.md section 8, C16",
          "technique": "TLA+ BSplines tables (exact basis integrals) + Density spec; densities recorded from the real kernels and DensityFinder on simulated ranks are scaled to integers and compared by TLC in trace validation (C16Trace) with sum_j c_j I_j",
@@ -145,7 +145,7 @@ CHECKS = {
                  "grids (1,1),(2,1),(1,2),(2,2),(3,2),(2,3), real and complex storage; the result times the common denominator must be the "
                  "integer sum_j c_j I_j computed by TLC, with zero imaginary part. Kernel-level calls with integer arrays are exact. The "
                  "equilibrium distribution must give exactly zero perturbed density on every process grid (which requires the rows of the "
-                 "equilibrium table at the global radius).",
+                 "equilibrium table at the global radius). One finder is applied to a second pair of grids decomposed the other way round; the driver's construction of its DensityFinder is recorded (it must sit on the v spline).",
          "note": _TB},
  "C19": {"level": "translation_validation", "design_ref": "DESIGN.md section 8, C19",
          "technique": "translation validation of the pyccel/gfortran build of the working tree against the interpreted sources on cases drawn from the TLC-derived BSplines tables (also compared with the exact values) and recorded from the operator classes; numba/pythran copies loaded as Python",
@@ -156,7 +156,7 @@ CHECKS = {
                  "PoloidalAdvection.step (three boundary modes, explicit and implicit, both edge modes, general and uniform-cubic splines), "
                  "density and initialisation kernels on seeded and boundary arguments; return values and every in-place updated array are "
                  "compared between the compiled build, the interpreted source and the numba / pythran copies (1e-11 relative; 1e-8 for the "
-                 "iterative implicit step).",
+                 "iterative implicit step). Argument forms include aliased (output = input) and longer-output calls of the 1-D vector kernels.",
          "note": "Trusted: this pyccel 2.0.1 / gfortran tool chain run (what is validated is this build of these sources, not pyccel); numba and pythran are not installed, their copies are executed as plain Python with inert decorators; TLC for the spline tables."},
  "C10": {"level": "model_checking", "design_ref": "DESIGN.md section 8, C10",
          "technique": "TLA+ specs Stencils (degree-5 Lagrange weights as exact rationals; identities checked by TLC) and BSplines tables; every (weight row, cell shift, twist, theta space) is replayed through FluxSurfaceAdvection.step against the exact field-aligned formula",
@@ -165,7 +165,7 @@ CHECKS = {
                  "harness evaluates f'(theta_i,z_m) = sum_k L_k(alpha) S_{(m+s_k) mod nz}(theta_i + s_k tau) exactly and compares "
                  "FluxSurfaceAdvection.step for periodic theta spaces (degree 1-3 and the fast path), nz 7-12, dt and v of either sign with "
                  "displacements to +-5.5 cells incl. whole cells, rotational transform zero and non-zero with rational b_z (r*iota/R0 in "
-                 "{3/4, 4/3, 5/12}), every (r, v) table row; also the exact circular shift and preservation of constants on the code. The grid-level entry point is judged slice by slice (harness/gridops.py): gridStep on process grids (1,1),(2,1),(1,2),(2,2) against step applied by hand to every local surface with its own indices.",
+                 "{3/4, 4/3, 5/12}), every (r, v) table row; also the exact circular shift and preservation of constants on the code. The grid-level entry point is judged slice by slice (harness/gridops.py): gridStep on process grids (1,1),(2,1),(1,2),(2,2) against step applied by hand to every local surface with its own indices. Displacements include feet a few 1e-6 of a cell off a grid line.",
          "note": _TB + " Float results are compared with exact rational values by the harness (1e-8..1e-9 absolute on O(1) data; observed deviations ~1e-15)."},
  "C11": {"level": "model_checking", "design_ref": "DESIGN.md section 8, C11",
          "technique": "TLA+ spec Advection (foot classification, periodic image, rule per boundary mode; box-checked by TLC) + BSplines tables; every node of real VParallelAdvection.step calls is trace-validated (C11Trace): TLC decides the applicable rule from the exact foot position; grid level by slice events of instrumented driver runs",
@@ -174,7 +174,7 @@ CHECKS = {
                  "either sign) at several radii. Each node is one event with the exact foot position (integers in units of 1/120 cell); "
                  "C11Trace applies Advection.VParRule / WrapPeriodic and demands: the exact interpolant at the foot inside [vMin,vMax], "
                  "f_eq(r, foot) or 0 outside, the interpolant at the periodic image (position checked too). The grid-level statement is "
-                 "judged on slice events recorded from gridStep / gridStepKeepGradient in instrumented driver runs on process grids (2,2) and (1,3). The grid-level steps (gridStep, gridStepKeepGradient) are judged slice by slice on four process grids against step applied by hand with the line's own gradient entry (from a second ParallelGradient object) and radius.",
+                 "judged on slice events recorded from gridStep / gridStepKeepGradient in instrumented driver runs on process grids (2,2) and (1,3). The grid-level steps (gridStep, gridStepKeepGradient) are judged slice by slice on four process grids against step applied by hand with the line's own gradient entry (from a second ParallelGradient object) and radius. Operators are also built without the boundary-mode argument (default = fEq); the grid-level oracle takes its gradient from an undistributed operator addressed by the global radius, and is repeated with a potential of amplitude 1e-6.",
          "note": _TB + " Float results are compared with exact rational values by the harness (1e-8..1e-9 absolute on O(1) data; observed deviations ~1e-15)."},
  "C13": {"level": "model_checking", "design_ref": "DESIGN.md section 8, C13",
          "technique": "TLA+ spec Stencils (finite-difference weights of orders 2-6 as exact rationals verified by their moment conditions, centredness, loop regimes = modulo; checked by TLC) + BSplines tables; ParallelGradient.parallel_gradient replayed against the exact formula",
@@ -183,7 +183,7 @@ CHECKS = {
                  "regime of the scatter loop addresses the same rows as the modulo (numpy index semantics) for all nz up to 14. The harness "
                  "evaluates b_z(r)/dz * sum_k w_k S_{(j+k) mod nz}(theta_i + k tau) exactly with the theta-spline tables and compares "
                  "parallel_gradient for orders 2-6, nz from order+1 upwards, rotational transform zero / non-zero, and every local radius "
-                 "index of serial and distributed layouts (radius over 2-3 processes); zero on constants on the code.",
+                 "index of serial and distributed layouts (radius over 2-3 processes); zero on constants on the code. Transforms include one that turns the outer stencil points by more than a full turn; before every operator another one with a different transform is built on the same theta spline, sizes and radii.",
          "note": _TB + " Float results are compared with exact rational values by the harness (1e-8..1e-9 absolute on O(1) data; observed deviations ~1e-15)." + " Constant iota only (the shipped Constants.iota); the global/local radius indexing of the precomputed theta positions is invisible then and recorded as an observation in DESIGN.md."},
  "C12": {"level": "model_checking", "design_ref": "DESIGN.md section 8, C12",
          "technique": "TLA+ spec Advection (Heun step, implicit trapezoid residual and boundary rule in exact rationals; box-checked by TLC, evaluated per node by C12Feet) + BSplines tensor tables; PoloidalAdvection.step replayed on exactly solvable families",
@@ -194,7 +194,7 @@ CHECKS = {
                  "rational Heun foot r + (g/r + [r1 inside] g/r1) m/2 and the fill rule (interpolant / 0 / f_eq(rMin) / f_eq(foot)), the "
                  "harness evaluates the exact 2-D interpolant there; implicit variant: the fixed point of the exact map when strictly inside "
                  "the domain; explicit vs implicit difference ratio ~8 on halving dt (third order); every call under a wall-clock cap "
-                 "(termination). Nodes whose exact foot or predictor lies within 1e-9 of the radial boundary are excluded as the property allows. The grid-level entry points (gridStep, then gridStep_SplinesUnchanged) are judged slice by slice on four process grids against step applied by hand with the plane's own velocity and potential spline.",
+                 "(termination). Nodes whose exact foot or predictor lies within 1e-9 of the radial boundary are excluded as the property allows. The grid-level entry points (gridStep, then gridStep_SplinesUnchanged) are judged slice by slice on four process grids against step applied by hand with the plane's own velocity and potential spline. With the operator's DEFAULT tolerance (subprocess, time limit): the implicit step terminates, is third-order close to the explicit step for dt = 2^-3..2^-8, equals the step iterated to 1e-12 on a sheared vortex, and works on a strided view of the caller's array.",
          "note": _TB + " Potentials are C^1 splines (degree >= 2): with degree-1 potentials the drift is discontinuous at every node and the implicit fixed point is not well defined (observed: the iteration can cycle for ever there; recorded in DESIGN.md as outside the quantifier). General smooth potentials are reached only through the order test."},
  "C14": {"level": "model_checking", "design_ref": "DESIGN.md section 8, C14",
          "technique": "TLA+ spec Galerkin (mode table, unknown ranges, exact strong-form left-hand side of manufactured spline solutions as polynomials per cell, evaluated by TLC per query) + BSplines tables; the real DiffEqSolver must return the manufactured spline",
@@ -205,7 +205,7 @@ CHECKS = {
                  "right-hand side to the real solveEquationForFunction (quadrature exact for these integrands) the solver must return phi at "
                  "the radial nodes (observed deviation 1e-13), which pins the assembled operator on that range. On the code: solveEquation "
                  "with nodal values of a spline rho equals the function path with E*rho, linearity, zeros at Dirichlet ends, mode "
-                 "independence, refusal of Neumann/Neumann with C = 0 and acceptance with C != 0. A second oracle: harness/weakform.py assembles the weak form exactly (rational arithmetic on the basis-polynomial tables printed by BSplinesMC) and solves it exactly, for right-hand sides that are not manufactured, at exactly the quadrature exactness the integrands need (even); solveEquation is also run with the modes distributed over processes and compared with the serial result; Neumann/Neumann refusal is tested per mode index, for D = 0 and for a C that vanishes on part of the domain.",
+                 "independence, refusal of Neumann/Neumann with C = 0 and acceptance with C != 0. A second oracle: harness/weakform.py assembles the weak form exactly (rational arithmetic on the basis-polynomial tables printed by BSplinesMC) and solves it exactly, for right-hand sides that are not manufactured, at exactly the quadrature exactness the integrands need (even); solveEquation is also run with the modes distributed over processes and compared with the serial result; Neumann/Neumann refusal is tested per mode index, for D = 0 and for a C that vanishes on part of the domain. Complex linearity solve(i rho) = i solve(rho); every mode number of mode counts that are no power of two is requested Neumann in turn and must not be pinned; a Neumann/Neumann mode with C = 2e-9 is accepted.",
          "note": _TB + " Degree 1 is not covered (phi'' carries point masses); non-polynomial coefficient functions are reached through C15's relations only; the assembly assumes equal-width cells (non-uniform radial breakpoints give wrong results - recorded in DESIGN.md as outside the quantifier)."},
  "C15": {"level": "model_checking", "design_ref": "DESIGN.md section 8, C15",
          "technique": "TLA+ spec Galerkin (FFT-order mode table and m^2, checked by TLC for all theta counts to 16; forcing of polynomial manufactured potentials with the spec's m^2) + trace validation (C15Trace) of the distributed pipeline on simulated process grids, of relations between QuasiNeutralitySolver variants and of an equilibrium run of the real driver",
@@ -218,7 +218,7 @@ CHECKS = {
                  "equal phi(r) trig(m0 theta) zeta(z) and be real. The real QuasiNeutralitySolver (chi 0/1, adiabatic/kinetic) is tied by "
                  "relations for every driven mode (response only in that mode, I and n-I share the operator, Dirichlet/Neumann pattern, "
                  "non-zero modes independent of chi, m = 0 with chi = 1 drops the adiabatic term, linearity). The real driver with eps = 0: "
-                 "density and potential exactly zero at t = 0, f unchanged by a full step to 1e-11 relative. The QuasiNeutralitySolver operator is pinned to the stated equation through independently written coefficient functions (constants in general position); its pipeline runs on five process grids against the serial result; the equilibrium runs through the driver on 2 and 4 ranks; the driver's quasi-neutrality statements (operands included) are validated against TimeStep.tla.",
+                 "density and potential exactly zero at t = 0, f unchanged by a full step to 1e-11 relative. The QuasiNeutralitySolver operator is pinned to the stated equation through independently written coefficient functions (constants in general position); its pipeline runs on five process grids against the serial result; the equilibrium runs through the driver on 2 and 4 ranks; the driver's quasi-neutrality statements (operands included) are validated against TimeStep.tla. Solvers with B = 1.7 in both electron models; inside a driver run the first solve is repeated by a second solver object that differs only in a much finer quadrature (relative deviation <= 2e-4; unmodified 3e-6).",
          "note": _TB + " The numerical value of the quasi-neutral response for the tanh profiles is not compared with an independent discretisation (only through relations and, for polynomial coefficients, C14)."},
  "C02": {"level": "model_checking", "design_ref": "DESIGN.md section 8, C02",
          "technique": "TLA+ spec (Partition/Layouts) model-checked with TLC + trace validation of tables, Layout objects and Grid accessors recorded from the real classes",
